@@ -16,7 +16,7 @@ void __real_free(void *);
 
 int sim_in_lib;
 
-struct ent { void *p; size_t sz; int op; };
+struct ent { void *p; size_t sz; int op; uintptr_t ra; };
 static struct ent *tab;
 static size_t tab_cap, tab_used, tab_tomb;
 #define TOMB ((void *)1)
@@ -60,12 +60,13 @@ static struct ent *tab_find(const void *p) {
     return 0;
 }
 
+static uintptr_t cur_ra;
 static void tab_add(void *p, size_t sz) {
     if((tab_used + tab_tomb + 1) * 2 > tab_cap) tab_grow();
     size_t h = hashp(p) & (tab_cap - 1);
     while(tab[h].p && tab[h].p != TOMB) h = (h + 1) & (tab_cap - 1);
     if(tab[h].p == TOMB) tab_tomb--;
-    tab[h].p = p; tab[h].sz = sz; tab[h].op = cur_op;
+    tab[h].p = p; tab[h].sz = sz; tab[h].op = cur_op; tab[h].ra = cur_ra;
     tab_used++;
     live_count++; live_bytes += sz;
     if(live_bytes > peak_bytes) peak_bytes = live_bytes;
@@ -101,6 +102,7 @@ void *__wrap_malloc(size_t sz) {
     if(!sim_in_lib) return __real_malloc(sz);
     if(refuse(sz, __builtin_return_address(0))) return 0;
     void *p = __real_malloc(sz);
+    cur_ra = (uintptr_t)__builtin_return_address(0) - (uintptr_t)&__executable_start;
     if(p) tab_add(p, sz);
     return p;
 }
@@ -111,6 +113,7 @@ void *__wrap_calloc(size_t n, size_t sz) {
     if(__builtin_mul_overflow(n, sz, &tot)) { op_count++; return 0; }
     if(refuse(tot, __builtin_return_address(0))) return 0;
     void *p = __real_calloc(n, sz);
+    cur_ra = (uintptr_t)__builtin_return_address(0) - (uintptr_t)&__executable_start;
     if(p) tab_add(p, tot);
     return p;
 }
@@ -127,6 +130,7 @@ void *__wrap_realloc(void *old, size_t sz) {
         return __real_realloc(old, sz);
     }
     struct ent *e = old ? tab_find(old) : 0;
+    cur_ra = (uintptr_t)__builtin_return_address(0) - (uintptr_t)&__executable_start;
     if(old && !e) { bad_free++; return 0; }
     if(refuse(sz, __builtin_return_address(0))) return 0;
     if(!old) {
@@ -200,6 +204,7 @@ void sim_alloc_foreach_live(void (*cb)(void *, size_t, int, void *), void *key) 
     for(size_t i = 0; i < tab_cap; i++)
         if(tab[i].p && tab[i].p != TOMB) cb(tab[i].p, tab[i].sz, tab[i].op, key);
 }
+uintptr_t sim_alloc_site_of(const void *p) { struct ent *e = tab_find(p); return e ? e->ra : 0; }
 
 void sim_alloc_free_all_live(void) {
     for(size_t i = 0; i < tab_cap; i++)
